@@ -172,6 +172,18 @@ def expressions(depth: int) -> Iterator[Tuple[str, str, str]]:
         yield from emit("precedence-arithmetic", "int,int,int", f"{a} - ({b} + {c}) == -1")
         yield from emit("precedence-arithmetic", "int,int,int", f"({a} - {b}) - {c} < 0")
         yield from emit("precedence-arithmetic", "int,int,int", f"{a} + ({b} - {c}) > 1")
+    # compound antecedents: non-nullness may flow out of a conjunction, never out of a
+    # disjunction
+    others = ["self.b", "self.i > 0", "self.oi is not None"]
+    for (guard, subject), other, consequent in itertools.product(GUARDS[:4], others, CONSEQUENTS):
+        if guard == other:
+            continue
+        yield from emit("antecedent-or", "guard", f"not ({guard} or {other}) or ({consequent})")
+        yield from emit("antecedent-and", "guard", f"not ({guard} and {other}) or ({consequent})")
+        yield from emit("antecedent-and", "guard", f"not ({other} and {guard}) or ({consequent})")
+        yield from emit("conjunction-or", "guard", f"({guard} or {other}) and ({consequent})")
+        yield from emit("conjunction-and", "guard", f"({guard} and {other}) and ({consequent})")
+        yield from emit("antecedent-negated-parts", "guard", f"not ({guard}) or not ({other}) or ({consequent})")
     if depth < 2:
         return
     level1 = [
